@@ -1,0 +1,26 @@
+//go:build verif
+
+// Contracts for govc (see /verif/DESIGN.md). This file contains only
+// comments; it is compiled only under the `verif` build tag.
+
+package crew
+
+// Lock discipline (C16, the concurrency half): the machines map of a Crew is
+// only ever used - looked up, ranged over, measured, updated, deleted from -
+// while the Crew's own lock is held (the write lock for updates and deletes).
+// Checked in every function under contract that touches the field: Copy here,
+// and Process, AddMachine, RemMachine in cmd/mcrew.
+//@ guardedby [C16] Crew.Machines by RWMutex
+
+//@ func (*Machine).Copy returns r
+//@   trusted
+//@   modifies nothing
+//@   ensures r != nil && fresh(r)
+
+// Copy: a snapshot taken under the read lock.
+//@ func (*Crew).Copy returns acc
+//@   safety C16
+//@   requires c != nil && forall k string :: (k in c.Machines) ==> c.Machines[k] != nil
+//@   modifies nothing
+//@   ensures[C16] snapshot: acc != nil && fresh(acc) && forall k string :: (k in acc.Machines) ==> old(k in c.Machines)
+//@   loop 0 invariant fresh(ms) && forall k string :: (k in ms) ==> old(k in c.Machines)
